@@ -154,6 +154,10 @@ def number_pool(ctx: Ctx):
     for e in range(-290, 291, 7):
         for k in (list(range(1, 1000, 37)) if q else range(1, 1000)):
             vals.append(float(f"{k}e{e}"))
+    # all-nines and 10…01 mantissas of every length at every seventh magnitude
+    for e in range(-290, 276, 7):
+        for nd in range(1, 16):
+            vals += [float(f"{'9' * nd}e{e}"), float(f"1{'0' * (nd - 1)}1e{e}") if nd < 15 else float(f"1{'0' * 13}1e{e}")]
     # named witnesses from the property text
     vals += [12, 50, 52, 0.12, 846400000000.0, 12.5, 1.5e290, 1e-290, 1e290, -1e290, 999999999999999, -999999999999999,
              10**15 - 1, 0.1, 0.2, 0.3, 1 / 3, 123456789012345.0, 0.000123456789012345, 5e-324, 1.7976931348623157e308]
@@ -350,6 +354,13 @@ def gen_value(rng, kind):
             return rng.randrange(-100, 1000)
         return rng.randrange(-10**15 + 1, 10**15)
     if kind == "float":
+        if rng.random() < 0.12:
+            # digit patterns next to a power of ten, at every magnitude: 9…9, 9…98, 10…01
+            nd = rng.randint(1, 15)
+            mant = rng.choice((int("9" * nd), int("9" * nd) - 1 if nd > 1 else 8, 10 ** (nd - 1) + 1 if nd > 1 else 1, 10 ** (nd - 1)))
+            e = rng.randint(-290 - nd + 1, 290 - nd + 1) if rng.random() < 0.5 else rng.randint(-nd - 2, 2)
+            x = float(f"{mant}e{e}")
+            return -x if rng.random() < 0.3 else x
         nd = rng.randint(1, 15)
         digits = rng.randrange(10 ** (nd - 1), 10 ** nd)
         e = rng.randint(-290 - nd + 1, 290 - nd + 1) if rng.random() < 0.2 else rng.randint(-nd - 2, 2)
@@ -511,6 +522,28 @@ def check_documents(ctx: Ctx):
                     t = jvalue(v)["type"]
                     ctx.violation(f"{t}-not-read-back-exactly", f"wrote {v!r:.120} at ({r},{c}) of a {exp_rows}x{exp_cols} table; after save/reopen: {why}",
                                   {"row": r, "col": c, "value": jvalue(v), "shape": [nr, nc]})
+            # the same open document, edited further and saved again, must reopen exactly as well
+            if di % 2 == 0:
+                for _ in range(40):
+                    r, c = rng.randrange(nr), rng.randrange(nc)
+                    v = gen_value(rng, rng.choice(kinds))
+                    try:
+                        table.write(r, c, v)
+                    except Exception:  # noqa: BLE001  (reported above for first-round writes)
+                        continue
+                    written[(r, c)] = v
+                try:
+                    t3 = save_reopen(doc).sheets[0].tables[0]
+                    for (r, c), v in written.items():
+                        why = same_value(v, t3.cell(r, c))
+                        if why:
+                            t = jvalue(v)["type"]
+                            ctx.violation(f"{t}-not-read-back-exactly-after-second-save",
+                                          f"wrote {v!r:.120} at ({r},{c}); after a second save of the same document and reopen: {why}",
+                                          {"row": r, "col": c, "value": jvalue(v), "shape": [nr, nc], "second_save": True})
+                    ctx.count("end-to-end: second save of the same open document, reopened, compared exactly", len(written))
+                except Exception as e:  # noqa: BLE001
+                    ctx.violation("second-save-reopen-raises", f"second save/reopen raised {exc_name(e)}: {e}", {"shape": [nr, nc]})
             # cells never written stay empty
             empties = 0
             for _ in range(200):
